@@ -656,5 +656,9 @@ def check(chk, repo):
     check_destroy(rep, repo)
     from ..common import check_model_premises
     check_model_premises(rep, repo)
+    # premise: the distances ranked and summed are the configured dissimilarity (flag, matrix and node pair of every selector)
+    from .c10 import check_walk_selectors
+    for m in ("create_arcs", "calculate_pdf"):
+        check_walk_selectors(rep, repo, "graph", "KNNSubgraph", m, set(), pre="WEIGHT:")
     chk.undecided.append("that the k slots kept by the scan are the k smallest distances (insertion-scan loop invariant)")
     chk.assumptions.append("k >= 1; ties among distances may appear in either order")
